@@ -113,6 +113,12 @@ DIFFERENT += [
     ('percent d is not format d',
      "def f(a):\n    return 'n=%d' % (a,)",
      "def f(a):\n    return f'n={a:d}'"),
+    ('dependent updates in another order',
+     'def f(self, n):\n    self.n = n\n    self.m = self.n + 1',
+     'def f(self, n):\n    self.m = self.n + 1\n    self.n = n'),
+    ('append to a list and read of its length swapped',
+     'def f(self, v):\n    self.xs.append(v)\n    self.k = len(self.xs)',
+     'def f(self, v):\n    self.k = len(self.xs)\n    self.xs.append(v)'),
 ]
 
 SAME = [
@@ -144,6 +150,7 @@ SAME = [
     ('default literal and early return', "def f(self):\n    r = b''\n    if self.h:\n        r = self.g()\n    return r", "def f(self):\n    if not self.h:\n        return b''\n    return self.g()"),
     ('attribute default then override', 'def f(self, t):\n    self.m = None\n    if t:\n        self.m = M()\n    self.n = 1', 'def f(self, t):\n    self.m = M() if t else None\n    self.n = 1'),
     ('percent tuple is an f-string', "def f(a, b):\n    return 'x %s y %r' % (a, b)", "def f(a, b):\n    return f'x {a!s} y {b!r}'"),
+    ('independent state updates in another order', 'def f(self, n):\n    self._in = True\n    self._can.append(True)\n    self._stk.append(n)', 'def f(self, n):\n    self._stk.append(n)\n    self._in = True\n    self._can.append(True)'),
     ('match object is not None', 'def f(s):\n    if RE_X.match(s):\n        return 1\n    return 0', 'def f(s):\n    if RE_X.match(s) is not None:\n        return 1\n    return 0'),
 ]
 
